@@ -134,4 +134,12 @@ def encodingKept (snap final : Bytes) (dec : Bool) : Bool := final == snap && de
 and still after the caller recycled the data buffer and made further calls -/
 def decodingKept (eqNow eqEnd : Bool) : Bool := eqNow && eqEnd
 
+/-- what the property asks of ONE encode call in the life of a message object, whatever was done
+with the object before: the call succeeds, the caller's prefix is still in front, and the bytes
+decode - by the codec's own `Unmarshal` and by the plain library decoder - to the value the
+object has NOW (`val`, `backOwn`, `backPlain`: canonical encodings of the current value and of
+the two decoded messages; `eqOwn`, `eqPlain`: `proto.Equal`) -/
+def histEncodeHolds (ok pfxKept eqOwn eqPlain : Bool) (val backOwn backPlain : Bytes) : Bool :=
+  ok && pfxKept && eqOwn && eqPlain && backOwn == val && backPlain == val
+
 end ConfModel.ConvertSpec
